@@ -332,6 +332,31 @@ theorem model_second_close (c : Class) (e : Env) (hc : c.second = .rwc) : (model
   have := (second_close_inert { e with stdinFails := true } rfl).1
   simp [this]
 
+/-- … in particular with the default TerminateDuration regenerated from mcp/cmd.go. -/
+theorem monitor_accepts_model_default (c : Class) (e : Env) (hs : e.stdinFails = false) :
+    monitor c (modelObs c { e with td := Generated.CmdTransport.defaultTerminateNanos }) = none :=
+  monitor_accepts_model c _ default_td_pos hs
+
+/-- The in-process Server.Run: the monitor accepts what the model of its select returns. -/
+theorem srv_monitor_accepts_model (e : SrvEnd) (b : Bool) : srvMonitor (srvRun e b) = none := by
+  cases e <;> cases b <;> decide
+
+theorem srv_sound (o : SrvObs) (x : SrvClause) (h : srvMonitor o = some x) :
+    match x with
+    | .noReturn => o.ret = .hang
+    | .sessionLeft => o.sessions ≠ 0
+    | .goroutineLeft => o.leak = true := by
+  unfold srvMonitor at h
+  by_cases h1 : o.ret = .hang
+  · rw [if_pos h1] at h; injection h with h; subst h; exact h1
+  rw [if_neg h1] at h
+  by_cases h2 : o.sessions ≠ 0
+  · rw [if_pos h2] at h; injection h with h; subst h; exact h2
+  rw [if_neg h2] at h
+  by_cases h3 : o.leak = true
+  · rw [if_pos h3] at h; injection h with h; subst h; exact h3
+  rw [if_neg h3] at h; cases h
+
 /-- Non-vacuity: the monitor does reject. -/
 example : monitor {} { res := .unresp, eb := 3, gone := false } = some .childLeft := by decide
 example : monitor { term := .ign } { res := .exiterr, death := .sk, eb := 2 } = some .killWithoutTerm := by decide
